@@ -351,6 +351,13 @@ Section CdbDb.
     apply Bool.orb_true_iff in Hkinds. rewrite !N.eqb_eq in Hkinds. auto.
   Qed.
 
+  Lemma second_net_key : forall mm x l, nth 1 (net_key mm x l) 0 = 37.
+  Proof. reflexivity. Qed.
+  Lemma second_map_key : forall ml, nth 1 ([0; ml_kind ml] ++ ml_name ml ++ [suffix_of (ml_wild ml)]) 0 = ml_kind ml.
+  Proof. reflexivity. Qed.
+  Lemma neq_by_second : forall k1 k2 : bytes, nth 1 k1 0 <> nth 1 k2 0 -> k1 <> k2.
+  Proof. intros k1 k2 H E. apply H. rewrite E. reflexivity. Qed.
+
   (* the prefix-length sets are found under their keys *)
   Lemma get_prefix_set : forall k, k = 47 \/ k = 52 \/ k = 54 ->
     get db [0; k] = Some (if k =? 47 then prefix_set (fun _ => true) f
@@ -360,10 +367,11 @@ Section CdbDb.
     intros k Hk. destruct db_shape as [ms [Hms ->]].
     rewrite get_app, get_none.
     2:{ intros k' v Hin. apply in_map_iff in Hin. destruct Hin as [n [E _]]. unfold nk in E. inversion E.
-        unfold net_key. simpl. intro C. inversion C. }
+        apply neq_by_second. rewrite second_net_key. cbn [nth]. destruct Hk as [ -> | [ -> | -> ] ]; discriminate. }
     rewrite get_app, get_none.
-    2:{ intros k' v Hin. destruct (Hms k' v Hin) as [ml [Hml ->]]. simpl. intro C. inversion C as [[E1 E2]].
-        destruct (ml_name ml); discriminate E2. }
+    2:{ intros k' v Hin. destruct (Hms k' v Hin) as [ml [Hml ->]].
+        apply neq_by_second. rewrite second_map_key. cbn [nth].
+        destruct (kind_of ml Hml) as [K|K]; rewrite K; destruct Hk as [ -> | [ -> | -> ] ]; discriminate. }
     destruct Hk as [ -> | [ -> | -> ] ]; reflexivity.
   Qed.
 
@@ -397,8 +405,11 @@ Section CdbDb.
         intro C. apply net_key_inj in C; auto; [|apply addr_lt; auto].
         destruct C as [C1 [C2 C3]]. apply (Hno (nl_net n)); auto. apply nets_of_in. eauto. }
     rewrite get_app, get_none.
-    2:{ intros k' v Hin. destruct (Hms k' v Hin) as [ml [Hml ->]]. unfold net_key. simpl. intro C. inversion C as [[E1 E2]].
-        destruct (kind_of ml Hml); congruence. }
-    simpl. reflexivity.
+    2:{ intros k' v Hin. destruct (Hms k' v Hin) as [ml [Hml ->]].
+        apply neq_by_second. rewrite second_map_key, second_net_key.
+        destruct (kind_of ml Hml) as [K|K]; rewrite K; discriminate. }
+    assert (F : forall k : bytes, nth 1 k 0 <> 37 -> bytes_eqb k (net_key m x l) = false).
+    { intros k Hk. apply bytes_eqb_neq. apply neq_by_second. rewrite second_net_key. exact Hk. }
+    cbn [get]. rewrite !F by (cbn [nth features_key]; discriminate). reflexivity.
   Qed.
 End CdbDb.
